@@ -57,3 +57,111 @@ C['peptacular.spans:build_right_semi_spans'] = dict(
              'forall(lambda t=Span: count(yields, t) == ite(t[1] == span[1] and t[2] == span[2] and span[0] <= t[0]'
              ' and t[0] < span[1] and mn <= t[1]-t[0] and t[1]-t[0] <= mx, 1, 0))')],
 )
+
+_ENZ = ('exists(lambda a, b: 0 <= a and a < b and b < len(S) and b <= a + missed_cleavages + 1 and {extra}'
+        ' t[0] == S[a] and t[1] == S[b] and t[2] == b - a - 1 and mn <= S[b] - S[a] and S[b] - S[a] <= mx)')
+
+C['peptacular.spans:build_enzymatic_spans'] = dict(
+    params=dict(max_index='int', enzyme_sites='List[int]', missed_cleavages='int', min_len='Optional[int]',
+                max_len='Optional[int]'),
+    returns='Bag[Span]',
+    requires=[('mc-nonneg', 'missed_cleavages >= 0')],
+    ghost=dict(S='sorted_set(set_add(set_add(set_of(enzyme_sites), 0), max_index))',
+               mn='1 if min_len is None else some(min_len)',
+               mx='max_index if max_len is None else some(max_len)'),
+    ensures=[
+        # C06: "exactly those whose two ends are protein termini or cleavage sites ... with at most the allowed
+        # number of sites strictly inside ... filtered by the inclusive length bounds; each span reports the number
+        # of cleavage sites it contains".  S is the strictly increasing enumeration of sites + {0, n}; the number of
+        # members of S strictly between S[a] and S[b] is b-a-1 (A-CNT).
+        ('enzymatic-once', 'forall(lambda t=Span: count(yields, t) == ite(' + _ENZ.format(extra='') + ', 1, 0))'),
+    ],
+    loop_heads={0: 'for i, start_site in enumerate(enzyme_sites):',
+                1: 'for j, end_site in enumerate(enzyme_sites[i + 1:i + missed_cleavages + 2]):'},
+    invariants={
+        0: [('prefix', 'forall(lambda t=Span: count(yields, t) == ite(' + _ENZ.format(extra='a < _k0 and') + ', 1, 0))')],
+        1: [('row', 'forall(lambda t=Span: count(yields, t) == ite(' + _ENZ.format(extra='(a < i or (a == i and b <= i + _k1)) and')
+             + ', 1, 0))'),
+            ('i-is-counter', '0 <= i and i < len(S) and start_site == S[i]')],
+    },
+    canary=[('one-more-missed',
+             'forall(lambda t=Span: count(yields, t) == ite(' + _ENZ.replace('+ 1 and', '+ 2 and').format(extra='') + ', 1, 0))')],
+)
+
+# ---- grouped semi builders.  sorted()/groupby() with key lambdas are outside the verified subset, so the BODIES of the
+# two grouped builders are not verified deductively: their contract (below) is ASSUMED at call sites and checked against
+# the real functions by the bounded tier (bounded/C06.py) -- labelled bounded, never counted as proved.
+# Ghost arguments S (strictly increasing list of sites incl. 0 and n) and mc describe the documented precondition
+# "the input spans must be enzymatic spans where the value is the number of missed cleavages".
+_E = ('exists(lambda a, b: 0 <= a and a < b and b < len(S) and b <= a + missed_cleavages + 1 and'
+      ' t[0] == S[a] and t[1] == S[b] and t[2] == b - a - 1)')
+_L = ('exists(lambda a, b: 0 <= a and a < b and b < len(S) and b <= a + missed_cleavages + 1 and'
+      ' t[0] == S[a] and S[b-1] < t[1] and t[1] < S[b] and t[2] == b - a - 1)')
+_R = ('exists(lambda a, b: 0 <= a and a < b and b < len(S) and b <= a + missed_cleavages + 1 and'
+      ' t[1] == S[b] and S[a] < t[0] and t[0] < S[a+1] and t[2] == b - a - 1)')
+_BOUNDS = 'mn <= t[1]-t[0] and t[1]-t[0] <= mx'
+_SEMI_B = 'mn <= t[1]-t[0] and (max_len is None or t[1]-t[0] <= some(max_len))'
+_GP = dict(S='List[int]', missed_cleavages='int')
+_FAMILY = [('enzymatic-family', 'forall(lambda t=Span: count(spans, t) == ite(' + _E + ' and mn <= t[1]-t[0], 1, 0))'),
+           ('S-increasing', 'forall(lambda j, k: implies(0 <= j and j < k and k < len(S), S[j] < S[k]))'),
+           ('mc-nonneg', 'missed_cleavages >= 0'),
+           ('min-len-positive', 'min_len is None or min_len >= 1')]
+C['peptacular.spans:_grouped_left_semi_span_builder'] = dict(
+    params=dict(spans='Bag[Span]', min_len='Optional[int]', max_len='Optional[int]'), ghost_params=_GP,
+    returns='Bag[Span]', trusted=True, requires=_FAMILY,
+    ghost=dict(mn='1 if min_len is None else some(min_len)'),
+    ensures=[('left-semi-of-family', 'forall(lambda t=Span: count(yields, t) == ite(' + _L + ' and ' + _SEMI_B + ', 1, 0))')],
+)
+C['peptacular.spans:_grouped_right_semi_span_builder'] = dict(
+    params=dict(spans='Bag[Span]', min_len='Optional[int]', max_len='Optional[int]'), ghost_params=_GP,
+    returns='Bag[Span]', trusted=True, requires=_FAMILY,
+    ghost=dict(mn='1 if min_len is None else some(min_len)'),
+    ensures=[('right-semi-of-family', 'forall(lambda t=Span: count(yields, t) == ite(' + _R + ' and ' + _SEMI_B + ', 1, 0))')],
+)
+C['peptacular.spans:build_semi_spans'] = dict(
+    params=dict(spans='Bag[Span]', min_len='Optional[int]', max_len='Optional[int]'), ghost_params=_GP,
+    returns='Bag[Span]', requires=_FAMILY,
+    ghost=dict(mn='1 if min_len is None else some(min_len)'),
+    ensures=[('left-plus-right', 'forall(lambda t=Span: count(yields, t) == ite(' + _L + ' and ' + _SEMI_B + ', 1, 0) + ite('
+              + _R + ' and ' + _SEMI_B + ', 1, 0))')],
+)
+
+C['peptacular.spans:build_spans'] = dict(
+    params=dict(max_index='int', enzyme_sites='List[int]', missed_cleavages='int', min_len='Optional[int]',
+                max_len='Optional[int]', semi='bool'),
+    returns='Bag[Span]',
+    requires=[('mc-nonneg', 'missed_cleavages >= 0'),
+              ('n-nonneg', 'max_index >= 0'),
+              ('sites-in-range', 'forall(lambda k: implies(0 <= k and k < len(enzyme_sites),'
+                                 ' 0 <= enzyme_sites[k] and enzyme_sites[k] <= max_index))'),
+              ('min-len-positive', 'min_len is None or min_len >= 1')],
+    ghost=dict(S='sorted_set(set_add(set_add(set_of(enzyme_sites), 0), max_index))',
+               # "every position 0..n is a cleavage site" <=> n+1 distinct sites, all within [0,n] (pigeonhole, A-PIGEON)
+               allsites='len(sorted_set(set_of(enzyme_sites))) == max_index + 1',
+               mn='1 if min_len is None else some(min_len)',
+               mx='max_index if max_len is None else some(max_len)'),
+    ensures=[
+        # C06 first sentence.  E: both ends in S, at most mc members of S strictly inside, value = that number.
+        # L/R (semi): shares its start/end with such a span, other end strictly inside it; the value is again the number
+        # of members of S strictly inside the reported span.  Then the inclusive length filter.  Each span once.
+        ('specific-rule-spans',
+         'implies(not allsites, forall(lambda t=Span: count(yields, t) == ite((' + _E + ' or (semi and (' + _L + ' or ' + _R
+         + '))) and ' + _BOUNDS + ', 1, 0)))'),
+        # C06 second sentence (what the shortcut is for).
+        ('every-position-a-site',
+         'implies(allsites, forall(lambda t=Span: count(yields, t) == ite(t[2] == 0 and 0 <= t[0] and t[1] <= max_index'
+         ' and t[1]-t[0] <= max_index - 1 and ' + _BOUNDS + ', 1, 0)))'),
+    ],
+    loop_heads={0: 'for span in spans:'},
+    invariants={0: [('filtered-prefix', 'forall(lambda t=Span: count(yields, t) == ite(' + _BOUNDS + ', count(_done0, t), 0))')]},
+    canary=[('semi-ignores-mc',
+             'implies(not allsites, forall(lambda t=Span: count(yields, t) == ite((' + _E + ' or (semi and ('
+             + _L.replace(' and b <= a + missed_cleavages + 1', '') + ' or ' + _R + '))) and ' + _BOUNDS + ', 1, 0)))')],
+)
+_W2 = dict(without=['semi_spans', 'yields', 'spans'])
+C['peptacular.spans:build_spans']['exit_lemmas'] = [
+    ('same-site-set', 'set_of(enzyme_sites) == set_of(old(enzyme_sites))', _W2),
+    ('S-in-range', 'forall(lambda k: implies(0 <= k and k < len(S), 0 <= S[k] and S[k] <= max_index))', _W2),
+    ('disjoint', 'forall(lambda t=Span: not (' + _E + ' and ' + _L + ') and not (' + _E + ' and ' + _R + ') and not ('
+     + _L + ' and ' + _R + '))', _W2),
+]
